@@ -13,5 +13,7 @@ Obs == [keys |-> {ObsKey(k) : k \in Keys}, len |-> TotalEntries(ents'), used |->
         held |-> held', dev |-> dev', leaked |-> leaked', quiescent |-> Quiescent']
 Cfg == [budget |-> BudgetPages, ballast |-> Ballast, cap |-> Cap, fine |-> Fine, nthreads |-> Cardinality(Threads),
         shards |-> {<<k, ShardOf[k]>> : k \in Keys}]
-Emit == PrintT(<<"T", ToJson([cfg |-> Cfg, hist |-> hist', obs |-> Obs])>>)
+\* keys whose entry the last step removed (eviction / clear): for the coverage counts
+Removed == {k \in Keys : Present(k) /\ ~Present(k)'}
+Emit == PrintT(<<"T", ToJson([cfg |-> Cfg, hist |-> hist', obs |-> Obs, removed |-> Removed])>>)
 =============================================================================
